@@ -316,11 +316,19 @@ func be64(b []byte) uint64 {
 func be32(b []byte) uint32 { return uint32(be64(b)) }
 func modelKey(peer, conn, ssid uint64) uint64 { return (peer*1048576+conn)*1048576 + ssid }
 
-func history(n int, steps int, faults bool, dir string) (string, map[string]interface{}) {
+// sev is one scripted event (directed scenarios: the witnesses of the known findings).
+type sev struct {
+	kind string // toggle, deliver, gossip, offline
+	a, b int    // brokers (0-based); for toggle: a = client index (1-based, cluster-wide), b = channel
+}
+
+func history(n int, steps int, faults bool, dir string, clientsPer []int, script []sev) (string, map[string]interface{}) {
 	r := cfg.Rng
-	clientsPer := make([]int, n)
-	for i := range clientsPer {
-		clientsPer[i] = 1 + r.Intn(2)
+	if clientsPer == nil {
+		clientsPer = make([]int, n)
+		for i := range clientsPer {
+			clientsPer[i] = 1 + r.Intn(2)
+		}
 	}
 	atomic.StoreInt64(&clock, 1000)
 	t0 := time.Now()
@@ -402,6 +410,26 @@ func history(n int, steps int, faults bool, dir string) (string, map[string]inte
 		return a, b
 	}
 	offline := map[[2]int]bool{}
+	for _, e := range script {
+		switch e.kind {
+		case "toggle":
+			toggle(all[e.a-1], e.b)
+		case "deliver":
+			deliver(e.a, e.b)
+		case "gossip":
+			gossip(e.a, e.b)
+		case "offline":
+			t += 10
+			atomic.StoreInt64(&clock, t)
+			c.nodes[e.a].svc.VerifSwarm().VerifOffline(c.nodes[e.b].name)
+			c.links[[2]int{e.a, e.b}] = mesh.NewVerifSender()
+			c.links[[2]int{e.b, e.a}] = mesh.NewVerifSender()
+			record(vlib.App("EOffline", vlib.N(uint64(e.a+1)), vlib.N(uint64(e.b+1)), vlib.Z(t)), "offline")
+		}
+	}
+	if script != nil {
+		steps = 0
+	}
 	for s := 0; s < steps; s++ {
 		x := r.Intn(100)
 		switch {
@@ -524,12 +552,22 @@ func main() {
 	for i := 0; i < nCases; i++ {
 		n := 2 + r.Intn(2)
 		faults := i%3 == 2
-		t, h := history(n, 12+r.Intn(25), faults, filepath.Join(cfg.Out, fmt.Sprintf("swarm%d", i)))
+		t, h := history(n, 12+r.Intn(25), faults, filepath.Join(cfg.Out, fmt.Sprintf("swarm%d", i)), nil, nil)
 		class := "clean-schedule"
 		if faults {
 			class = "schedule-with-full-state-and-offline"
 		}
 		sh.Add(t, h, fmt.Sprintf("%s/%d-brokers", class, n), true)
+	}
+	// the witnesses of the known findings (coq/Findings/C05.v), replayed on the real brokers
+	{
+		t, h := history(2, 0, true, filepath.Join(cfg.Out, "swarmF4"), []int{2, 1},
+			[]sev{{"toggle", 3, 2}, {"toggle", 3, 2}, {"deliver", 1, 0}})
+		sh.Add(t, h, "witness/F4-stale-add", true)
+		t, h = history(3, 0, true, filepath.Join(cfg.Out, "swarmF7"), []int{1, 1, 2},
+			[]sev{{"toggle", 4, 1}, {"deliver", 2, 0}, {"deliver", 2, 1}, {"toggle", 2, 1}, {"deliver", 1, 2}, {"deliver", 1, 0},
+				{"offline", 2, 1}, {"gossip", 2, 0}, {"deliver", 2, 0}})
+		sh.Add(t, h, "witness/F7-offline-tombstone", true)
 	}
 	sh.Finish("2-3 brokers with 1-2 subscribing clients each over channels a/ b/ c/; schedules of 12-36 events: client subscribe / unsubscribe toggles, single-piece deliveries on random links (so queued payloads coalesce and arrive late), and in every third case periodic full-state gossip and peer offline / online; then quiescence (all links drained, two rounds of full-state exchange) and one publish per broker and channel; observed after every event: every broker's remote trie entries, replicated subscription entries, members and per-peer counters; non-trivial: all")
 }
